@@ -36,7 +36,36 @@ def h_bip143(ctx, sig, spk, wit, idx, sclen, mutable):
     ctx.check(tx.serialize() == before, 'txTo unchanged')
 
 
-HARNESSES = {'bip143': h_bip143}
+def h_resign(ctx, sig, spk, idx, ht_class):
+    """history: sign a mutable transaction, edit it in place, sign again - the second digest must be that of the new field values"""
+    S = ctx.script
+    C = ctx.core
+    f = K.mk_tx_fields(ctx, dict(sig=sig, spk=spk, wit=None))
+    tx = K.build_tx(ctx, f, True)
+    code = ctx.bytes('code', 2)
+    amount = ctx.int('amount', 0, (1 << 63) - 1)
+    ht = ctx.int('hashtype', 0, 255)
+    ctx.assume((ht & 0x1f) == ht_class if ht_class in (2, 3) else ctx.and_((ht & 0x1f) != 2, (ht & 0x1f) != 3))
+    h1 = S.SignatureHash(S.CScript(code), tx, idx, ht, amount=amount, sigversion=S.SIGVERSION_WITNESS_V0)
+    ctx.check(h1 == ctx.dsha256(SH.bip143_preimage(ctx, f, code, idx, amount, ht)), 'bip143: digest == H(H(reference pre-image))')
+    g = dict(f)
+    g['vin'] = [dict(i) for i in f['vin']]
+    g['vout'] = [dict(o) for o in f['vout']]
+    g['vin'][0]['nSequence'] = ctx.int('new_seq', 0, 0xffffffff)
+    tx.vin[0].nSequence = g['vin'][0]['nSequence']
+    g['vin'][-1]['hash'] = ctx.bytes('new_hash', 32)
+    tx.vin[-1].prevout.hash = g['vin'][-1]['hash']
+    if g['vout']:
+        g['vout'][0]['nValue'] = ctx.int('new_val', -(1 << 63), (1 << 63) - 1)
+        tx.vout[0].nValue = g['vout'][0]['nValue']
+    newout = dict(nValue=ctx.int('app_val', 0, 1000), scriptPubKey=ctx.bytes('app_spk', 1))
+    g['vout'].append(newout)
+    tx.vout.append(C.CMutableTxOut(newout['nValue'], S.CScript(newout['scriptPubKey'])))
+    h2 = S.SignatureHash(S.CScript(code), tx, idx, ht, amount=amount, sigversion=S.SIGVERSION_WITNESS_V0)
+    ctx.check(h2 == ctx.dsha256(SH.bip143_preimage(ctx, g, code, idx, amount, ht)), 'bip143: digest after in-place edits == reference of the new values')
+
+
+HARNESSES = {'bip143': h_bip143, 'resign': h_resign}
 
 
 def instances(tier):
@@ -54,4 +83,7 @@ def instances(tier):
                     wit = None if (n + k) % 2 else [[2]] + [[] for _ in range(nin - 1)]
                     out.append(dict(h='bip143', p=dict(sig=sig, spk=spk, wit=wit, idx=idx, sclen=sl, mutable=bool((n + k) % 3 == 0))))
                 n += 1
+    for sig, spk, idx in (([1], [1], 0), ([0, 1], [1, 0], 1), ([1, 0], [], 0)):
+        for cls in (1, 2, 3):
+            out.append(dict(h='resign', p=dict(sig=sig, spk=spk, idx=idx, ht_class=cls)))
     return out
